@@ -8,7 +8,7 @@ from engines import runner
 from engines.facts import Program
 from engines.registry import RULES
 
-ZERO_OK = {"G1", "G2"}
+ZERO_OK = {"G1", "G2", "A8"}
 out = {}
 meas = {}
 for cfg in runner.THOROUGH:
